@@ -58,6 +58,7 @@ def run(ctx):
     hists = tv.generate(ctx, "MLEnv", cfg(maxlen, "FALSE", "INVARIANT Emit\n"), "HIST", workers=16, name=f"gen:MLEnv:len{maxlen}")
     if not ctx.quick:
         hists += tv.generate(ctx, "MLEnv", cfg(10, "FALSE", "INVARIANT Emit\n"), "HIST", simulate=8000, depth=10, name="gen:MLEnv:simulate10")
+    hists = [h for h in hists for _ in (0, 1)]          # each history with fresh lists and with lists edited in place
     recs = child(ctx, hists, "h")
     verdicts = tv.validate(ctx, "MLEnvTrace", recs, batch=30000)
     failures, nontriv, seen = [], set(), set()
